@@ -176,7 +176,7 @@ func hashcomCase(r *runner, i int) {
 			}
 			// phase B: the model's Open with that hash value
 			r.ask(fmt.Sprintf("HO %s %s %s %s %s %s %s %s", vid, vh.Hex(v.k), vh.Hex(v.c), vh.Hex(v.m), vh.Hex(v.w), fk, fi, vh.Hex(dg)), func(out string) {
-				if out != impl {
+				if r.openAlarm(v.name == "honest", impl, out) {
 					pf := (v.name == "honest" && impl != "1") || (v.name != "honest" && impl == "1")
 					r.corr(vid, "hashcom-open-"+classOf(v.name), fmt.Sprintf("implementation Open=%s, model hashcom_open=%s", impl, out), cse,
 						"correspondence hashcom Open [model/Commit.v hashcom_open]", pf)
